@@ -120,11 +120,19 @@ func (x *fx) pkListP(name string) param {
 		{C: "[bls,identity,bls]", V: []crypto.PublicKey{b[0], x.idPK, b[2]}},
 		{C: "[identity,identity,identity]", V: []crypto.PublicKey{x.idPK, x.idPK, x.idPK}},
 		{C: "[bls,bls,bls,bls]", V: []crypto.PublicKey{b[0], b[1], b[2], b[0]}},
+		{C: "[identity]", V: []crypto.PublicKey{x.idPK}},
+		{C: "[bls,bls,bls,bls (same)]", V: []crypto.PublicKey{b[0], b[0], b[0], b[0]}},
 	}}
 }
 func pkl(a any) []crypto.PublicKey { return a.([]crypto.PublicKey) }
 
 // sigListP: lists of three signatures around the valid [s0,s1,s2]. [nil element] is a nil byte slice.
+func idSig() []byte {
+	b := make([]byte, 48)
+	b[0] = 0xc0
+	return b
+}
+
 func sigListP(name string, s [3][]byte) param {
 	ff := make([]byte, 48)
 	for i := range ff {
@@ -147,6 +155,15 @@ func sigListP(name string, s [3][]byte) param {
 		{C: "[s,ff(48B),s]", V: [][]byte{s[0], ff, s[2]}},
 		{C: "[s,s,4KiB]", V: [][]byte{s[0], s[1], big}, Rej: true},
 		{C: "[96B,s]", V: [][]byte{append(append([]byte{}, s[0]...), s[1]...), s[2]}, Rej: true},
+		// well-formed SPECIAL values: the identity signature (alone, repeated, mixed) and the same
+		// signature many times - valid inputs that an "ignore the neutral element" or "deduplicate"
+		// shortcut may turn into an empty or shorter internal list
+		{C: "[identity]", V: [][]byte{idSig()}},
+		{C: "[identity,identity]", V: [][]byte{idSig(), idSig()}},
+		{C: "[identity x10]", V: [][]byte{idSig(), idSig(), idSig(), idSig(), idSig(), idSig(), idSig(), idSig(), idSig(), idSig()}},
+		{C: "[identity,s]", V: [][]byte{idSig(), s[0]}},
+		{C: "[s,identity,s]", V: [][]byte{s[0], idSig(), s[2]}},
+		{C: "[s,s,s,s (same)]", V: [][]byte{s[0], s[0], s[0], s[0]}},
 	}}
 }
 
